@@ -69,11 +69,13 @@ var vHostileNames = []string{"../evil", "..", "../../evil2", "a/../../evil3", "s
 var vHostileLists = [][]string{{"..", "evil"}, {"sub", "..", "..", "evil2"}, {"a/../../evil3"}, {"/abs", "evil4"}, {"", "evil5"}, {"x", ""}, {"x", "..", "..", "evil6"},
 	{".", "evil7"}, {"..", "sibling", "canary.txt"}, {"top", "../../evil8"}, {"..", "..", "evil9"}, {"..", "canary.txt"}, {"..\\evil10"}, {"top", "/abs/evil11"}, {"top", "..", "..", "sibling", "new"},
 	// lists that stay inside when joined as sent, but whose first element is deeper than the one name the receiver puts in its place
-	{"a/b/c", "..", "..", "evil12"}, {"a/b", "..", "..", "canary.txt"}, {"x/y/z/w", "..", "..", "..", "sibling", "canary.txt"}, {"a/./b/c", "..", "..", "evil13"}}
+	{"a/b/c", "..", "..", "evil12"}, {"a/b", "..", "..", "canary.txt"}, {"x/y/z/w", "..", "..", "..", "sibling", "canary.txt"}, {"a/./b/c", "..", "..", "evil13"},
+	// elements that are not ".." as sent but become it under any "cleaning" of the name (control characters, blanks, trailing dots)
+	{".\x7f.", "canary.txt"}, {"pkg", ".\x01.", "\x1b..", "evil14"}, {"..\t", "evil15"}, {"top", "..\r", "..\n", "sibling", "canary.txt"}, {".\x00.", "evil16"}, {"top", ".. ", " ..", "evil17"}}
 
 // vHostileList composes a path list from suspicious elements (in addition to the fixed lists).
 func vHostileList(tp *verifsim.Tape) []string {
-	elems := []string{"..", ".", "", "./..", ".//..", "../", "..//", "a/..", "/", "/abs", "..\\", "sub", "x/../..", "./.", "../.", "...", " ..", ".. ", "..\x00"}
+	elems := []string{"..", ".", "", "./..", ".//..", "../", "..//", "a/..", "/", "/abs", "..\\", "sub", "x/../..", "./.", "../.", "...", " ..", ".. ", "..\x00", ".\x7f.", "\x1b..", "..\t", ".\x01.", "..\r", "\x08.."}
 	n := 1 + tp.Draw("hl.n", 4)
 	var out []string
 	if tp.Bool("hl.deepfirst", 250) {
@@ -132,6 +134,13 @@ func vScenarioC09(rc *runCtx) {
 			return "", false
 		}
 		var m map[string]any
+		if json.Unmarshal(raw, &m) == nil && m != nil && m["path_name"] != nil && tp.Bool("c09.bare", 150) {
+			// a bare (old-style) name where a record is expected
+			name := vHostileNames[tp.Draw("c09.name", len(vHostileNames))]
+			injected = name
+			rc.fault("hostile-name-bare-for-record")
+			return vEncode([]byte(name)), true
+		}
 		if json.Unmarshal(raw, &m) == nil && m != nil && m["path_name"] != nil {
 			lst := vHostileLists[tp.Draw("c09.list", len(vHostileLists))]
 			if tp.Bool("c09.compose", 500) {
